@@ -36,7 +36,14 @@ TEnd == /\ IsEvent("end")
         /\ cap = Rec[l].capacity
         /\ UNCHANGED lvars
 
-TNext == TReset \/ TInvoke \/ TLin \/ TReturn \/ TEnd
+\* the state left behind by an unlogged concurrent history (writers evicting while readers hit): whatever
+\* happened, it is a reachable state of Lru, hence Bounded - no more entries than the capacity
+TStress == /\ IsEvent("stress")
+           /\ Rec[l].capacity = Rec[l].cap
+           /\ Rec[l].size <= Rec[l].cap /\ Rec[l].present <= Rec[l].cap
+           /\ UNCHANGED lvars
+
+TNext == TReset \/ TInvoke \/ TLin \/ TReturn \/ TEnd \/ TStress
 
 TraceSpec == TInit /\ [][TNext]_tvars
 
